@@ -44,9 +44,9 @@ theorem flattenedSumLoop_flat : ∀ (fuel : Nat) (queue done : List Expr),
       · refine flattenedSumLoop_flat fuel _ done ?_ hd
         intro c hc
         rcases List.mem_append.1 hc with h | h
-        · exact hq' c h
         · simp only [c16Flat, if_true] at hi
           exact (c16FlatL_iff _ _).1 hi c h
+        · exact hq' c h
       · refine flattenedSumLoop_flat fuel queue (done ++ [item]) hq' ?_
         intro c hc
         rcases List.mem_append.1 hc with h | h
@@ -70,9 +70,9 @@ theorem flattenedProductLoop_flat : ∀ (fuel : Nat) (queue done out : List Expr
         · refine flattenedProductLoop_flat fuel _ done out ?_ hd h
           intro c hc
           rcases List.mem_append.1 hc with h' | h'
-          · exact hq' c h'
           · simp only [c16Flat, if_true] at hi
             exact (c16FlatL_iff _ _).1 hi c h'
+          · exact hq' c h'
         · refine flattenedProductLoop_flat fuel queue (done ++ [item]) out hq' ?_ h
           intro c hc
           rcases List.mem_append.1 hc with h' | h'
